@@ -43,6 +43,8 @@ typedef struct {
        outer_text_end will always contain the real end of
        input, which we need to generate a line mapping */
     const uint8_t *outer_text_end;
+    /* The subject when it is a (mutable) buffer, otherwise NULL */
+    const JanetBuffer *subject;
     const uint32_t *bytecode;
     const Janet *constants;
     JanetArray *captures;
@@ -69,6 +71,16 @@ typedef struct {
     int32_t tcap;
     int32_t scratch;
 } CapState;
+
+/* A function called during a match can get hold of the subject when it is a buffer. The match
+ * keeps raw pointers into the subject, so refuse to continue if it was resized or reallocated. */
+static void peg_check_subject(const PegState *s) {
+    const JanetBuffer *subject = s->subject;
+    if (NULL != subject &&
+            (subject->data != s->text_start || subject->data + subject->count != s->outer_text_end)) {
+        janet_panic("subject buffer was modified during peg match");
+    }
+}
 
 /* Save the current capture state */
 static CapState cap_save(PegState *s) {
@@ -661,6 +673,7 @@ tail:
                                      s->captures->data + cs.cap);
                     break;
             }
+            peg_check_subject(s);
             cap_load_keept(s, cs);
             if (rule[0] == RULE_MATCHTIME && !janet_truthy(cap)) return NULL;
             pushcap(s, cap, tag);
@@ -1893,6 +1906,10 @@ static PegCall peg_cfun_init(int32_t argc, Janet *argv, int get_replace) {
     ret.s.mode = PEG_MODE_NORMAL;
     ret.s.text_start = ret.bytes.bytes;
     ret.s.text_end = ret.bytes.bytes + ret.bytes.len;
+    {
+        Janet subject = argv[get_replace ? 2 : 1];
+        ret.s.subject = janet_checktype(subject, JANET_BUFFER) ? janet_unwrap_buffer(subject) : NULL;
+    }
     ret.s.outer_text_end = ret.s.text_end;
     ret.s.depth = JANET_RECURSION_GUARD;
     ret.s.captures = janet_array(0);
@@ -1963,6 +1980,7 @@ static Janet cfun_peg_replace_generic(int32_t argc, Janet *argv, int only_one) {
             }
             int32_t nexti = (int32_t)(result - c.bytes.bytes);
             JanetByteView subst = janet_text_substitution(&c.subst, c.bytes.bytes + i, nexti - i, c.s.captures);
+            peg_check_subject(&c.s);
             janet_buffer_push_bytes(ret, subst.bytes, subst.len);
             trail = nexti;
             if (nexti == i) nexti++;
